@@ -194,25 +194,47 @@ func init() {
 			js := []Job{job("dyncrc16", "H04lin"), job("dyncrc16", "H04ker"), job("dyncrc16", "H04burst"), job("dyncrc16", "H14c"),
 				job("fit", "H04hdr", "size", 12), job("fit", "H04hdr", "size", 14)}
 			const fileLen = 14 + 34 + 2
-			step := 1
-			for q := 0; q < fileLen; q += step {
-				js = append(js, job("fit", "H04burst", "q", q))
-			}
-			maxD := 4
+			bits := 8
 			if tier == "thorough" {
-				maxD = 8
+				bits = 16
+			}
+			for q := 0; q < fileLen; q++ {
+				if q == 4 || q == 5 {
+					continue // a burst starting here lies entirely inside the data-size field
+				}
+				for o := 0; o < 8; o++ {
+					// skip windows that lie entirely in the size / data-size fields
+					free := false
+					for b := q; b < q+(bits+o+7)/8 && b < fileLen; b++ {
+						if !(b == 0 || (b >= 4 && b <= 7)) {
+							free = true
+						}
+					}
+					if free {
+						js = append(js, job("fit", "H04burst", "q", q, "o", o, "bits", bits))
+					}
+				}
+			}
+			maxD := 2
+			if tier == "thorough" {
+				maxD = 4
 			}
 			for D := 1; D <= maxD; D++ {
 				for q := 0; q < 12+D+2; q++ {
-					js = append(js, job("fit", "H04sym", "D", D, "q", q))
+					if q == 4 || q == 5 {
+						continue
+					}
+					j := job("fit", "H04sym", "D", D, "q", q)
+					j.Timeout = 300000
+					js = append(js, j)
 				}
 			}
 			return js
 		},
 		MustReach: []string{"C04.lemma.linear", "C04.lemma.kernel", "C04.lemma.injective", "C04.lemma.burst", "C04.hdr.rule", "C04.hdr.method-vs-decodeheader", "C04.burst.decode-detects", "C04.sym.checkintegrity-detects"},
 		Bounds: map[string]interface{}{
-			"quick":    "lemmas on updateByte: none (all states, bytes, 16-bit patterns, 8 bit offsets); header verdicts: all 2^104 / 2^88 header byte values for sizes 14 and 12; direct bursts: every <=16-bit pattern at every bit position of one concrete 50-byte activity file (Decode and CheckIntegrity), and of every accepted frame with a 12-byte header and D <= 4 arbitrary data bytes (CheckIntegrity)",
-			"thorough": "as quick with D <= 8",
+			"quick":    "lemmas on updateByte: none (all states, bytes, 16-bit patterns, 8 bit offsets); header verdicts: all 2^104 / 2^88 header byte values for sizes 14 and 12; direct bursts: every pattern of <= 8 contiguous bits at every bit position of one concrete 50-byte activity file (Decode and CheckIntegrity), every <= 16-bit pattern at every position of every accepted frame with a 12-byte header and D <= 2 arbitrary data bytes (CheckIntegrity)",
+			"thorough": "as quick with <= 16-bit patterns on the concrete file and D <= 4",
 		},
 		Outside: []string{"frames longer than the direct bound are covered by the lemma composition in DESIGN.md section 5/C04 (linearity + kernel + burst lemma), which is a paper argument over the machine-checked lemmas",
 			"Header.CheckIntegrity on Size values other than 12 and 14 (it panics on e.g. 13; not part of the property)",
@@ -268,6 +290,41 @@ func init() {
 			"the manually written Bool type (types_man.go) is not a generated type",
 			"the decimal rendering inside Type(n) is strconv.FormatInt, kept uninterpreted: the assertion is that the method calls it on the receiver's value"},
 		Assumptions: append([]string{"strconv.FormatInt is an uninterpreted function of its argument"}, commonAssumptions...),
+	})
+}
+
+func init() {
+	reg(&CheckDef{
+		ID: "C13",
+		Jobs: func(tier string, meta map[string]int) []Job {
+			return []Job{job("fit", "H13")}
+		},
+		MustReach: []string{"C13.def.replaces-its-slot", "C13.def.other-slots-untouched", "C13.data.undefined-slot-is-error", "C13.data.consumed-by-selected-slot", "C13.data.routed-by-selected-slot", "C13.data.definitions-never-written"},
+		Bounds: map[string]interface{}{
+			"quick":    "one record (all 256 header bytes, arbitrary record bytes) through the real decodeFileData loop from a state where all 16 slots hold pairwise distinguishable definitions (different message, record length 2..17, alternating byte order) except at most one nil slot (17 choices); definition records carry one fixed single-field body (with/without one developer field)",
+			"thorough": "same",
+		},
+		Outside: []string{"arbitrary interleavings follow by induction on the one-record step (slot contents only change by replacement; other slots pointer-identical) — paper argument",
+			"pre-states with more than one undefined slot; definition bodies other than the fixed one (C01/C02 own definition parsing)"},
+		Assumptions: commonAssumptions,
+	})
+	reg(&CheckDef{
+		ID:   "C15",
+		Meta: "fit.Hmeta",
+		Jobs: func(tier string, meta map[string]int) []Job {
+			js := msgJobs(meta, "fit", "H15a")
+			js = append(js, msgJobs(meta, "fit", "H15b")...)
+			js = append(js, job("fit", "H15c"), job("fit", "H15d"))
+			return js
+		},
+		MustReach: []string{"C15.entry.gotype", "C15.entry.constructor-invalid", "C15.entry.size-fits", "C15.walk.bijection", "C15.known.constructor", "C15.container.member-known", "listed", "unlisted", "known", "unknown"},
+		Bounds: map[string]interface{}{
+			"quick":    "none: every message number the tree's knownMsgNums lists x all 256 field numbers (symbolic), all 65536 message numbers (symbolic) for table coverage, every container member of the 17 file types",
+			"thorough": "same",
+		},
+		Outside: []string{"'field numbers map to the struct fields that the declared SDK profile version assigns': no 21.115 workbook is in the repository, so there is no oracle",
+			"'no profile-driven reflection access can fail': decided by C01 (decoder) and C05 (encoder) on top of these table facts"},
+		Assumptions: append([]string{"package initialisers (the generated tables, constructors, reflect.TypeOf list) are interpreted concretely from the SSA of the current tree", "M-reflect"}, commonAssumptions...),
 	})
 }
 
